@@ -32,6 +32,7 @@ CONSTANTS
   SignedArm,     \* TRUE: the counter is signed and inFlightUp arms the deadline only when it is positive afterwards
   AtomicWrites,  \* TRUE: net.Buffers.WriteTo is one atomic gather write (kernel socket)
   WriteLock,     \* TRUE: frames are written under a writer lock
+  AtomicDown,    \* TRUE: inFlightDown decrements AND clears the deadline under the mutex (FALSE: clears it after unlocking)
   CompleteOnDownError, \* TRUE: receive completes the call when inFlightDown fails (FALSE: the pinned tree dropped it)
   MultiNames,    \* sequence of names for the multis that may be flushed, e.g. <<"m1", "m2">>
   MaxFaults, MaxCancels, AllowClose, AllowReorder
@@ -360,12 +361,22 @@ ReaderDown ==
   /\ pc[R][1] = "down"
   /\ inFlight' = inFlight - 1
   /\ IF inFlight - 1 = 0
-     THEN IF conn = "closed"      \* SetReadDeadline fails: the reader holds the call, so it completes it (with the error)
+     THEN IF ~AtomicDown
+          THEN SetPc(R, <<"down2", pc[R][2]>>) /\ UNCHANGED <<deadline, results>>   \* the mutex is released before the deadline is cleared
+          ELSE IF conn = "closed"      \* SetReadDeadline fails: the reader holds the call, so it completes it (with the error)
           THEN /\ SetPc(R, <<"rfail">>) /\ UNCHANGED deadline
                /\ (IF CompleteOnDownError THEN Deliver(CallsOf(pc[R][2]), "err") ELSE UNCHANGED results)
           ELSE deadline' = FALSE /\ SetPc(R, <<"ctx", pc[R][2]>>) /\ UNCHANGED results
      ELSE UNCHANGED <<deadline, results>> /\ SetPc(R, <<"ctx", pc[R][2]>>)
   /\ UNCHANGED <<done, failOnce, failer, failpc, conn, broken, sent, wlock, offer, cur, nmulti, multis, wire, inbox,
+                 responded, accepted, ctxDone, armed, answered, failed, timedOut, refusedLate, faults, cancels>>
+ReaderDown2 ==        \* only with ~AtomicDown: the deadline is cleared outside the mutex
+  /\ pc[R][1] = "down2"
+  /\ IF conn = "closed"
+     THEN /\ SetPc(R, <<"rfail">>) /\ UNCHANGED deadline
+          /\ (IF CompleteOnDownError THEN Deliver(CallsOf(pc[R][2]), "err") ELSE UNCHANGED results)
+     ELSE deadline' = FALSE /\ SetPc(R, <<"ctx", pc[R][2]>>) /\ UNCHANGED results
+  /\ UNCHANGED <<done, failOnce, failer, failpc, conn, broken, sent, inFlight, wlock, offer, cur, nmulti, multis, wire, inbox,
                  responded, accepted, ctxDone, armed, answered, failed, timedOut, refusedLate, faults, cancels>>
 
 ReaderDeliver ==
@@ -377,7 +388,7 @@ ReaderDeliver ==
   /\ UNCHANGED <<done, failOnce, failer, failpc, conn, broken, sent, inFlight, deadline, wlock, offer, cur, nmulti, multis,
                  wire, inbox, responded, accepted, ctxDone, armed, answered, failed, timedOut, refusedLate, faults, cancels>>
 
-Reader == ReaderLoop \/ ReaderRead \/ ReaderFail \/ ReaderUnregister \/ ReaderDown \/ ReaderDeliver \/ FailStep(R)
+Reader == ReaderLoop \/ ReaderRead \/ ReaderFail \/ ReaderUnregister \/ ReaderDown \/ ReaderDown2 \/ ReaderDeliver \/ FailStep(R)
 
 ----------------------------------------------------------------------------
 Closer == \/ (AllowClose /\ pc["closer"] = <<"start">> /\ FailCall("closer", <<"fin">>))
